@@ -342,9 +342,9 @@ def main():
 
     # ---- 4d. C19: Visualize against Dot.v and the registry
     viz_cov = None
-    if prop == "C19" and all(f in built for f in ("Dot", "RunViz")):
+    if prop == "C19" and all(f in built for f in ("Dot", "RunViz", "DotText")):
         import vizcheck
-        vcases, vtraces, vM, vV, vdist = vizcheck.check(tier, seed, load_corpus("C19-viz"))
+        vcases, vtraces, vM, vV, vT, vdist = vizcheck.check(tier, seed, load_corpus("C19-viz"))
         viz_cov = dict(vdist, disagreements=len(set(m[0] for m in vM)), checker_failures=len(vV))
         seen_codes = set()
         for (ci, oi, code) in vV:
@@ -353,7 +353,7 @@ def main():
             seen_codes.add(code)
 
             def vpred(cand, code=code):
-                cs, ts, m2, v2 = vizcheck.run_viz([cand])
+                cs, ts, m2, v2 = vizcheck.run_viz([cand])[:4]
                 return any(x[2] == code for x in v2)
             small = vcases[ci]
             try:
@@ -374,6 +374,13 @@ def main():
                              {"property": prop, "obligation": "corr_C19: Dot.v (create_graph / update_graph on the model state) prints the same structure as Visualize",
                               "which": {1: "plain graph", 2: "graph marked with the Invoke's error"}.get(code),
                               "disagreeing_case": vcases[ci], "operation": oi, "implementation_trace": vtraces[ci]})
+            print(f"VIOLATION property={prop} replay={p} no-failing-input-found")
+            violations += 1
+        if vT:
+            # equal structure, different bytes: the text model (DotText.v) and the printer disagree
+            ci, oi, which = vT[0]
+            p = write_replay(prop, f"viz-text-{case_hash(vcases[ci])}",
+                             vizcheck.text_replay(prop, vcases[ci], vtraces[ci], oi, which))
             print(f"VIOLATION property={prop} replay={p} no-failing-input-found")
             violations += 1
 
